@@ -51,12 +51,29 @@ class MonitoredStreamReader(asyncio.StreamReader):
 
     async def read(self, n=-1):
         self._sim.active_reader = self._conn_id
+        sim = self._sim
+        unit = getattr(sim, "lag_unit", None)
+        if unit:
+            # the client comes back for more: whatever it was handed before has had its chance to be processed. Bytes handed out
+            # minus bytes accounted for by messages that left the receive path (queued or delivered) = what it is holding back
+            try:
+                done = sim.client.queue.qsize() + len(sim.received)
+            except Exception:  # noqa: BLE001
+                done = len(sim.received)
+            lag = getattr(self, "_handed_out", 0) - unit * done
+            if lag > getattr(sim, "lag_max", 0):
+                sim.lag_max = lag
+            sim.lag_samples = getattr(sim, "lag_samples", 0) + 1
+        hook = getattr(sim, "on_read_hook", None)
+        if hook is not None:
+            hook(self)
         try:
             data = await super().read(n)
         except Exception as e:
             self._sim.ev("read_exc", conn=self._conn_id, op="read", exc=type(e).__name__)
             raise
         self._note("read", "eof" if data == b"" else "data")
+        self._handed_out = getattr(self, "_handed_out", 0) + len(data)
         return data
 
     async def readline(self):
@@ -102,6 +119,7 @@ class SimTransport(asyncio.Transport):
         self.pause_plan: list = []          # per write: number of loop steps to keep writing paused (0 = no pause)
         self.eof_sent = False
         self.drain_fails = None            # fail the k-th next drain() without touching the read side
+        self._held = []                    # (index into written, view of the caller's object) of writes the "socket" has not taken yet
 
     # --- asyncio.Transport API (what StreamWriter / StreamReaderProtocol use) ---------------
     def get_extra_info(self, name, default=None):
@@ -138,6 +156,7 @@ class SimTransport(asyncio.Transport):
             self.sim.ev("connection_lost", conn=self.id, exc=type(exc).__name__ if exc else None)
 
     def write(self, data):
+        given = data
         data = bytes(data)
         if self.closing or self.lost:
             self.sim.ev("write_dropped", conn=self.id, n=len(data))
@@ -153,12 +172,47 @@ class SimTransport(asyncio.Transport):
         self.written.append((self.sim.loop.steps, data))
         self.sim.ev("write", conn=self.id, data=data)
         steps = self.pause_plan.pop(0) if self.pause_plan else 0
+        if steps < 0:
+            # the socket takes nothing for |steps| loop steps although the transport's buffer stays below its high-water mark:
+            # no pause_writing(), drain() returns at once, the data waits in the buffer
+            if not self._holding:
+                self._holding = True
+                self.sim.loop.at_step(self.sim.loop.steps - steps, self._release_hold)
+        if (steps > 0 or self._write_paused or self._holding) and type(given) is not bytes:
+            # what the socket does not take at once stays in the transport's buffer BY REFERENCE (asyncio's selector transport
+            # of Python 3.12 keeps a memoryview of the caller's object): the bytes that reach the wire are the ones that
+            # object holds when the socket becomes writable again
+            try:
+                self._held.append((len(self.written) - 1, memoryview(given)))
+            except TypeError:
+                pass
         if steps > 0 and not self._write_paused:
             self._write_paused = True
             self.protocol.pause_writing()
             self.sim.loop.at_step(self.sim.loop.steps + steps, self._resume_writing)
 
+    _held: list = []
+    _holding = False
+
+    def _release_hold(self):
+        self._holding = False
+        if not self._write_paused:
+            self._flush_held()
+
+    def _flush_held(self):
+        held, self._held = self._held, []
+        for idx, view in held:
+            try:
+                now = bytes(view)
+            except Exception:  # noqa: BLE001  (a released buffer: nothing sensible reaches the wire)
+                now = b""
+            if now != self.written[idx][1]:
+                self.sim.ev("buffered_write_changed_before_it_reached_the_wire", conn=self.id, was=self.written[idx][1], now=now)
+                self.written[idx] = (self.written[idx][0], now)
+
     def _resume_writing(self):
+        if not self._holding:
+            self._flush_held()
         if self._write_paused:
             self._write_paused = False
             if not self.lost:
